@@ -243,13 +243,20 @@ impl<'a> Cx<'a> {
 
     fn assign_to(&mut self, target: &Expr, value: Tx, rest: &[Stmt], k: &Kont) -> R<String> {
         if self.vm_mode {
-            if let Some(p) = self.path_of(target) {
+            if let Some(p) = self.path_of(target).or_else(|| Some(compact(&toks(target)))) {
                 if let Some((term, ty)) = vm_place(&p) {
                     if ty != value.ty {
                         return self.un(format!("assignment to `{}`: modelled types differ", p));
                     }
                     let field = term.trim_start_matches("vm_.");
                     let body = self.block(rest, k)?;
+                    if field == "frameIp" {
+                        // `current_frame_mut().unwrap()`: there must be a frame
+                        let mut pre = value.pre;
+                        let v = self.fresh("t");
+                        pre.push(Pre::Bind(v.clone(), format!("(Rs.Vm.setFrameIp vm_ {})", value.term)));
+                        return Ok(wrap_pre(&pre, format!("(let vm_ := {};\n  {})", v, body)));
+                    }
                     return Ok(wrap_pre(&value.pre, format!("(let vm_ := {{ vm_ with {} := {} }};\n  {})", field, value.term, body)));
                 }
             }
@@ -442,9 +449,12 @@ impl<'a> Cx<'a> {
                 let (n, _) = self.simple_pat(&ts.elems[0])?;
                 ("Rs.Value.Number".to_string(), (n, LT::F64))
             }
-            (Pat::TupleStruct(ts), LT::Opt(t)) if toks(&ts.path) == "Some" && ts.elems.len() == 1 => {
+            (Pat::TupleStruct(ts), LT::Opt(t)) if toks(&ts.path) == "Some" && ts.elems.len() == 1 && matches!(&ts.elems[0], Pat::Ident(_)) => {
                 let (n, _) = self.simple_pat(&ts.elems[0])?;
                 ("some".to_string(), (n, (**t).clone()))
+            }
+            (Pat::TupleStruct(ts), LT::Opt(_)) if toks(&ts.path) == "Some" && ts.elems.len() == 1 => {
+                return self.stmt_if_let_general(l, i, rest, k, scrut);
             }
             (p, t) => return self.un(format!("`if let {}` on {:?} not modelled", toks(p), t)),
         };
@@ -481,6 +491,38 @@ impl<'a> Cx<'a> {
         Ok(wrap_pre(&scrut.pre, format!("(match {} with\n  | {} {} =>\n  {}\n  | _ =>\n  {})", scrut.term, ctor, lean, t, f)))
     }
 
+    fn stmt_if_let_general(&mut self, l: &syn::ExprLet, i: &syn::ExprIf, rest: &[Stmt], k: &Kont, scrut: Tx) -> R<String> {
+        let snapshot = self.snapshot();
+        let tail_value = rest.is_empty() && matches!(k, Kont::Return);
+        let mut then_stmts = if tail_value { i.then_branch.stmts.clone() } else { seal(i.then_branch.stmts.clone()) };
+        then_stmts.extend_from_slice(rest);
+        self.scopes.push(BTreeMap::new());
+        let sty = scrut.ty.clone();
+        let pat = self.pattern(&l.pat, &sty)?;
+        let t = self.block(&then_stmts, k)?;
+        self.scopes.pop();
+        self.restore(&snapshot);
+        let f = match &i.else_branch {
+            None => self.block(rest, k)?,
+            Some((_, e)) => {
+                let mut stmts: Vec<Stmt> = match &**e {
+                    Expr::Block(b) => b.block.stmts.clone(),
+                    other => vec![Stmt::Expr(other.clone(), None)],
+                };
+                if !tail_value {
+                    stmts = seal(stmts);
+                }
+                stmts.extend_from_slice(rest);
+                self.scopes.push(BTreeMap::new());
+                let f = self.block(&stmts, k)?;
+                self.scopes.pop();
+                f
+            }
+        };
+        self.restore(&snapshot);
+        Ok(wrap_pre(&scrut.pre, format!("(match {} with\n  | {} =>\n  {}\n  | _ =>\n  {})", scrut.term, pat, t, f)))
+    }
+
     fn snapshot(&self) -> (Vec<BTreeMap<String, Var>>, BTreeMap<String, Var>, BTreeMap<String, usize>, BTreeMap<String, String>) {
         let mut pv = self.place_version.clone();
         pv.insert("<epoch>".into(), self.epoch);
@@ -510,6 +552,37 @@ impl<'a> Cx<'a> {
                     Some(i) if i.diverge.is_none() => (*i.expr).clone(),
                     _ => return self.un("`let` without initialiser (or with `else`) not modelled"),
                 };
+                // `let x = if let P = S { E } else { …; return … };`
+                if let Expr::If(ii) = &init {
+                    if let (Expr::Let(il), Some((_, els))) = (&*ii.cond, &ii.else_branch) {
+                        let els_stmts: Vec<Stmt> = match &**els {
+                            Expr::Block(b) => b.block.stmts.clone(),
+                            other => vec![Stmt::Expr(other.clone(), Some(Default::default()))],
+                        };
+                        let diverges = matches!(els_stmts.last(), Some(Stmt::Expr(Expr::Return(_), _)));
+                        if diverges {
+                            let scrut = self.expr(&il.expr, None)?;
+                            let snapshot = self.snapshot();
+                            self.scopes.push(BTreeMap::new());
+                            let sty = scrut.ty.clone();
+                            let pat = self.pattern(&il.pat, &sty)?;
+                            let mut local = l.clone();
+                            if let Some(li) = local.init.as_mut() {
+                                li.expr = Box::new(Expr::Block(syn::ExprBlock { attrs: vec![], label: None, block: ii.then_branch.clone() }));
+                            }
+                            let mut v = vec![Stmt::Local(local)];
+                            v.extend_from_slice(rest);
+                            let then_body = self.block(&v, k)?;
+                            self.scopes.pop();
+                            self.restore(&snapshot);
+                            self.scopes.push(BTreeMap::new());
+                            let else_body = self.block(&els_stmts, k)?;
+                            self.scopes.pop();
+                            self.restore(&snapshot);
+                            return Ok(wrap_pre(&scrut.pre, format!("(match {} with\n  | {} =>\n  {}\n  | _ =>\n  {})", scrut.term, pat, then_body, else_body)));
+                        }
+                    }
+                }
                 // `let PAT = match S { P => E, _ => { …; return … } };`: the arms that do not leave the function bind PAT and go on
                 if let Expr::Match(mm) = &init {
                     let scrut = self.expr(&mm.expr, None)?;
@@ -681,10 +754,15 @@ impl<'a> Cx<'a> {
                         let body = self.block(rest, k)?;
                         Ok(wrap_pre(&tx.pre, body))
                     }
-                    Expr::MethodCall(mc) if self.vm_mode && self.path_of(&mc.receiver).as_deref() == Some("self") && self.vm_statement(mc).is_some() => {
+                    Expr::MethodCall(mc) if self.vm_mode && self.vm_statement(mc).is_some() => {
                         let (pre, upd) = self.vm_statement_tx(mc)?;
                         let body = self.block(rest, k)?;
                         Ok(wrap_pre(&pre, format!("({}{})", upd, body)))
+                    }
+                    Expr::MethodCall(mc) if self.vm_mode && semi.is_some() && self.is_translated_state_call(mc) => {
+                        let tx = self.expr(e, None)?;
+                        let body = self.block(rest, k)?;
+                        Ok(wrap_pre(&tx.pre, body))
                     }
                     Expr::MethodCall(_) | Expr::Call(_) if semi.is_some() => {
                         // a translated plain callee used for its value is handled by `expr`; a statement call is an effect
@@ -708,9 +786,34 @@ impl<'a> Cx<'a> {
         }
     }
 
+    fn is_translated_state_call(&self, mc: &syn::ExprMethodCall) -> bool {
+        let rp = match self.path_of(&mc.receiver) {
+            Some(p) => p,
+            None => return false,
+        };
+        let name = mc.method.to_string();
+        let on_fiber = rp == "self.active_fiber()" || rp == "self.active_fiber_mut()" || (self.fiber_mode && rp == "self");
+        if on_fiber && self.callees.contains_key(&format!("fiber::{}", name)) {
+            return true;
+        }
+        if rp == "self" && !self.fiber_mode {
+            return matches!(name.as_str(), "pop") || self.callees.get(&name).map(|s| s.lean.starts_with("vm_")).unwrap_or(false);
+        }
+        if let Some((term, _)) = vm_place(&rp) {
+            return term == "vm_.handlers" && name == "pop";
+        }
+        false
+    }
+
     fn vm_statement(&self, mc: &syn::ExprMethodCall) -> Option<()> {
+        let rp = self.path_of(&mc.receiver)?;
+        let on_vm = rp == "self" && !self.fiber_mode;
+        let on_fiber = rp == "self.active_fiber()" || rp == "self.active_fiber_mut()" || (self.fiber_mode && rp == "self");
         match (mc.method.to_string().as_str(), mc.args.len()) {
-            ("push", 1) | ("poke", 2) | ("discard", 1) => Some(()),
+            ("push", 1) | ("poke", 2) | ("discard", 1) | ("load_frame", 0) if on_vm => Some(()),
+            ("close_upvalues", 1) if on_fiber => Some(()),
+            ("push", 1) | ("truncate", 1) if vm_place(&rp).is_some() => Some(()),
+            ("truncate", 1) if rp.replace("active_fiber_mut()", "active_fiber()") == "self.active_fiber().frames" || (self.fiber_mode && rp == "self.frames") => Some(()),
             _ => None,
         }
     }
@@ -718,7 +821,45 @@ impl<'a> Cx<'a> {
     /// `self.push(v);` / `self.poke(d, v);` / `self.discard(n);` on the abstract interpreter state
     fn vm_statement_tx(&mut self, mc: &syn::ExprMethodCall) -> R<(Vec<Pre>, String)> {
         let args: Vec<&Expr> = mc.args.iter().collect();
+        let rp = self.path_of(&mc.receiver).unwrap_or_default();
+        if rp != "self" || self.fiber_mode {
+            // an operation on a place of the abstract state, or a fiber intrinsic
+            let name = mc.method.to_string();
+            if name == "close_upvalues" {
+                let n = self.expr(args[0], Some(&LT::I("usize")))?;
+                return Ok((n.pre, format!("let vm_ := Rs.Vm.closeUpvalues vm_ {};\n  ", n.term)));
+            }
+            if name == "truncate" && vm_place(&rp).is_none() {
+                let n = self.expr(args[0], Some(&LT::I("usize")))?;
+                return Ok((n.pre, format!("let vm_ := Rs.Vm.truncateFrames vm_ {};\n  ", n.term)));
+            }
+            if let Some((term, ty)) = vm_place(&rp) {
+                match (name.as_str(), &ty) {
+                    ("push", LT::List(t)) => {
+                        let x = self.expr(args[0], Some(&**t))?;
+                        if x.ty != **t {
+                            return self.un(format!("push onto `{}`: modelled types differ", rp));
+                        }
+                        let field = term.trim_start_matches("vm_.");
+                        return Ok((x.pre, format!("let vm_ := {{ vm_ with {} := {} ++ [{}] }};\n  ", field, term, x.term)));
+                    }
+                    ("truncate", LT::List(_)) if term == "vm_.stack" => {
+                        let n = self.expr(args[0], Some(&LT::I("usize")))?;
+                        let mut pre = n.pre;
+                        let v = self.fresh("t");
+                        pre.push(Pre::Bind(v.clone(), format!("(Rs.Vm.truncateStack vm_ {})", n.term)));
+                        return Ok((pre, format!("let vm_ := {};\n  ", v)));
+                    }
+                    _ => {}
+                }
+            }
+            return self.un(format!("statement `{}` on the interpreter state not modelled", truncate_chars(&compact(&toks(mc)), 80)));
+        }
         match (mc.method.to_string().as_str(), args.len()) {
+            ("load_frame", 0) => {
+                let v = self.fresh("t");
+                Ok((vec![Pre::Bind(v.clone(), "(Rs.Vm.loadFrame vm_)".into())], format!("let vm_ := {};\n  ", v)))
+            }
             ("push", 1) => {
                 let x = self.expr(args[0], Some(&LT::Value))?;
                 if x.ty != LT::Value {
